@@ -362,7 +362,7 @@ class World(BaseWorld):
         if self.bigint:
             return None        # true division yields floats
         a = self.pick(rng, lambda s: s.is_model)
-        return None if a is None else {"op": "div", "a": a, "c": rng.choice([2, -2, 4, 0.5, -1, 1, 8]), "inplace": rng.random() < 0.4}
+        return None if a is None else {"op": "div", "a": a, "c": rng.choice([2, -2, 4, 0.5, -1, 1, 8, 3, 7, 49, -3, 10]), "inplace": rng.random() < 0.4}
 
     def gen_item(self, rng):
         a = self.pick(rng, lambda s: s.is_model)
@@ -892,10 +892,22 @@ class World(BaseWorld):
     def do_div(self, op):
         c = op["c"]
         ia = self.slot_index(op)
-        if self.pool[ia].is_model and not exact_ok(self.pool[ia].shadow.scale(Fraction(1) / frac(c))):
-            return "skipped-inexact"
+        scale = lambda p: p.scale(Fraction(1) / frac(c))
+        if self.pool[ia].is_model and not exact_ok(scale(self.pool[ia].shadow)):
+            fc = frac(c)
+            if self.bigint or fc.denominator != 1 or not exact_ok(self.pool[ia].shadow):
+                return "skipped-inexact"
+            # a divisor whose reciprocal is not a binary fraction (3, 7, 49 ...): every stored coefficient must be the
+            # correctly rounded quotient of the exact coefficient by c (IEEE division of two exact doubles), and the
+            # reference continues from those doubles
+            def scale(p, fc=fc):
+                q = RefPoly(p.kind)
+                for k, v in p.t.items():
+                    q.add_term(k, Fraction(float(v / fc)))
+                return q
+            self.probe("division_by_non_dyadic_scalar")
         if not op.get("inplace"):
-            return self.unary(op, "div %r" % c, lambda o: o / c, lambda p: p.scale(Fraction(1) / frac(c)))
+            return self.unary(op, "div %r" % c, lambda o: o / c, scale)
         a = self.slot_index(op)
         A = self.pool[a]
         if not A.is_model:
@@ -911,7 +923,7 @@ class World(BaseWorld):
             return "exc"
         self.check_untouched({a}, where)
         A.obj = obj
-        A.shadow = A.shadow.scale(Fraction(1) / frac(c))
+        A.shadow = scale(A.shadow)
         self.check_written(a, where)
         return "ok"
 
